@@ -1,6 +1,7 @@
 import LZ4V.Proofs.SparseProof
 import LZ4V.Proofs.WRProof
 import LZ4V.Properties.C20
+import LZ4V.Proofs.LegacyProof
 /-!
 # C04 — the CLI round-trips every file under every option set, deterministically
 
@@ -52,6 +53,14 @@ theorem archive_independent_of_completion_order (pay : Nat → List UInt8) (n : 
 theorem jobs_cover_input (jobSize : Nat) (input : List UInt8) :
     (FrameC.chunks jobSize (input.length + 1) input).flatten = input :=
   LZ4V.C20.chunks_flatten jobSize _ input (by omega)
+
+/-- **`lz4 -l` (fast levels) is lossless, end to end**: for EVERY input the archive model (`Model/Legacy.lean`: 8 MB blocks, each compressed by
+    `LZ4_compress_fast` on a fresh state and written as `LE32 size | block` after the legacy magic number; byte-identical to the real
+    `lz4 -l` on every recorded small archive) exists and decodes, by the stream specification (what `lz4 -d` must write), to exactly the input -/
+theorem legacy_archive_round_trips (E : LZ4V.Spec.FrameL.Env) (ok : LZ4V.Model.Legacy.EnvOK E) (level : Int) (input : List UInt8) :
+    ∃ a, LZ4V.Model.Legacy.archive level input = some a ∧ LZ4V.Spec.FrameL.Decodes E [] a input := by
+  obtain ⟨a, ha⟩ := LZ4V.Model.Legacy.archive_succeeds level input
+  exact ⟨a, ha, LZ4V.Model.Legacy.archive_decodes E ok level input a ha⟩
 
 -- the premises are satisfiable, the sessions do something
 example : (Sparse.sparseSession [[0,0,0,0,0,0,0,0,0,0,0,0,0,0,0,0,65,66,67], [0,0,0], [], [0,0,0,0,0,0,0,0,1]]).content.length = 31 := by decide
